@@ -18,6 +18,26 @@ CHECKS = {
          "Generated models x {bfs,dfs,on-demand,simulation} x threads x all six finish conditions; every path from discoveries() is re-validated step by step against the model and the per-expectation end condition by a validator that shares no code with Path::from_fingerprints.",
          "Trusted: the path validator and graph interpreter. Only results after the workers finished are examined.",
          "property-based testing (proptest) with a validity-predicate oracle", "DESIGN.md section 5 / C03"),
+ "C04": ("exploration",
+         "Generated pairs of values (same abstract value rebuilt differently, or one near-miss edit apart) for every identity-bearing type; a recording Hasher compares the exact write-call sequences, the harness decides equality on its own abstract representation; plus all reachable states of generated actor systems against fingerprints and the checkers' unique_state_count.",
+         "Trusted: the harness's abstract representations and the recording hasher. 64-bit collisions between different call sequences are not counted as defects.",
+         "property-based testing (proptest): metamorphic near-miss pairs with a structural-equality oracle", "DESIGN.md section 5 / C04"),
+ "C08": ("exploration",
+         "Generated concurrent histories (linearizable by construction, mutated, free, ill-formed) over four specifications; is_consistent compared in both directions with a brute-force search over all admissible total orders; returned serializations validated; ill-formed histories must be rejected and stay inconsistent.",
+         "Trusted: brute-force oracle (60 lines) and the serialization matcher. Bounded to <= ~9 operations on <= 4 threads.",
+         "property-based testing (proptest) with a brute-force reference oracle", "DESIGN.md section 5 / C08"),
+ "C14": ("exploration",
+         "As C08 without real-time precedence for the sequential-consistency tester, plus lin => sc on every history and clone discipline of both testers.",
+         "Trusted: brute-force oracle. Bounded history size.",
+         "property-based testing (proptest) with a brute-force reference oracle", "DESIGN.md section 5 / C14"),
+ "C18": ("exploration",
+         "Generated operation sequences on the three reference objects: is_valid_step must agree with invoke (incl. resulting state), is_valid_history with replaying from the initial object. (Register-harness part: see evidence for what is built.)",
+         "Trusted: the SequentialSpec::invoke implementations are the reference for is_valid_step (the property states their equivalence).",
+         "property-based testing (proptest): differential testing of is_valid_step against invoke", "DESIGN.md section 5 / C18"),
+ "C20": ("exploration",
+         "Generated clock triples with correlated construction against a componentwise reference order and the lattice laws; dense maps against a Vec model over generated operation sequences, construction orders, defects and rewrite plans.",
+         "Trusted: componentwise reference order; Vec model.",
+         "property-based testing (proptest): algebraic laws and model-based testing", "DESIGN.md section 5 / C20"),
  "C06": ("exploration",
          "Differential testing of the real ActorModel transition relation against an independent reference interpreter on generated table-driven actor systems: enabled-action multisets, None-ness and every successor component for every reachable (state, action) within a bound.",
          "Trusted: the reference interpreter (appendix B of DESIGN.md, ~150 lines), the field-by-field state conversion. 'Touched but equal' handlers are not generated.",
